@@ -34,8 +34,8 @@ Fixpoint with_root_at (k : nat) (r : list node) (t : template) : template :=
 
 (* ---- states that differ only in the parts of chain members the executor never reads ---- *)
 (* what the executor reads of a member of a frame's chain: the block table (block lookup),
-   id and the two trim options (of the last member: text nodes), name and kind (of the first
-   member: lazy include paths).  Neither the root nodes, nor the parent, nor the macros. *)
+   id (of every member: which text nodes the options cover) and the two trim options (of the
+   last member: text nodes), name and kind (of the first member: lazy include paths).  Neither the root nodes, nor the parent, nor the macros. *)
 Definition tpl_alike (t1 t2 : template) : Prop :=
   tpl_id t1 = tpl_id t2 /\ tpl_name t1 = tpl_name t2 /\ tpl_is_string t1 = tpl_is_string t2 /\
   tpl_blocks t1 = tpl_blocks t2 /\ tpl_trim t1 = tpl_trim t2 /\ tpl_lstrip t1 = tpl_lstrip t2.
